@@ -328,9 +328,13 @@ func (pe *probeEnv) runCase(c execCase, res *result, seed int64) {
 				if faultT.Multi {
 					if rt.Key == faultKey {
 						exp[i].kind = xNull
-					} else {
+					} else if pl.FaultKind == "panic" {
+						// the batches of one type share one recover: a panic in one key's batch may
+						// take the type's other batches with it
 						exp[i].kind = xEither
 					}
+					// an ERROR of one key's batch call must leave the batches of the type's other
+					// keys intact (each is a separate user call): xEntity stays
 				} else if rt.Identity == pl.FaultID {
 					exp[i].kind = xNull
 				}
